@@ -19,13 +19,13 @@ PROBE = {"G38.2", "G38.3", "G38.4", "G38.5"}
 
 def machine_oracle(tol_per_word: Fraction):
     def oracle(lines, recs, im):
-        out = []
-        tol_word = tol_per_word if im.dp >= 5 else Fraction(1, 10**im.dp) / 2 + Fraction(1, 10**9)
-        return _oracle(lines, recs, im, tol_word)
+        # the rounding allowance of every word is that of the decimal places in force when it was written
+        tols = [tol_per_word if dp >= 5 else Fraction(1, 10**dp) / 2 + Fraction(1, 10**9) for dp in im.step_dp]
+        return _oracle(lines, recs, im, tols)
     return oracle
 
 
-def _oracle(lines, recs, im, tol_per_word):
+def _oracle(lines, recs, im, tols):
     if True:
         out = []
         pos = {"X": None, "Y": None, "Z": None}
@@ -33,6 +33,7 @@ def _oracle(lines, recs, im, tol_per_word):
         rel = False
         for i, (ln, rec) in enumerate(zip(lines, recs)):
             r = parse_record(rec)
+            tol_per_word = tols[i]
             for s in ([] if r["stmts"] == "-" else r["stmts"].split(";")):
                 toks = [] if s == "_" else s.split(",")
                 codes = {t for t in toks if ":" not in t}
@@ -142,6 +143,16 @@ def run(R: core.Run):
     bc.correspond(R, trace_histories(R, R.n(100, 3000)), KEYS, False, "tracer", tol_oracle)
     lowdp = [[f"cfg dp={R.rng.choice([0, 1, 2, 3])}"] + h for h in histories(R, R.n(150, 3000))]
     bc.correspond(R, lowdp, KEYS, False, "low-decimal-places", tol_oracle)
+    # the formatter's precision changes mid-program (raised and lowered); coordinates are re-used across the change
+    chg = []
+    for h in histories(R, R.n(150, 3000)):
+        h = [f"cfg dp={R.rng.choice([1, 2, 3, 5])}"] + h
+        for _ in range(R.rng.randint(1, 3)):
+            h.insert(R.rng.randint(2, len(h)), f"fmtdp {R.rng.choice([0, 1, 2, 3, 4, 5, 6])}")
+        chg.append(h)
+    chg.append(["cfg dp=2", "move x=395/32 y=1/32", "fmtdp 4", "move z=1", "move x=395/32 y=1/32", "dist rel", "move x=395/32",
+                "fmtdp 1", "move x=395/32", "fmtdp 5", "move x=395/32"])
+    bc.correspond(R, chg, KEYS, False, "decimal-places-changed-mid-program", tol_oracle)
     if R.broken:
         R.search_batches += 1
         for h in histories(R, R.n(1500, 5000)):
